@@ -476,13 +476,33 @@ def ob_finished_first_is_not_timed_out(T: int, d: int, j0: int, j1: int, j2: int
     pre: 0 <= j0 <= JMAX and 0 <= j1 <= JMAX and 0 <= j2 <= JMAX and 0 <= j3 <= JMAX and 0 <= j4 <= JMAX
     post: _
     """
+    return _jump_clock_run(T, d, j0, j1, j2, j3, j4)
+
+
+@obligation(quick=200, thorough=400, partitions_quick=[f"T == {t}" for t in (1, 2, 3)],
+            partitions_thorough=[f"T == {t} and j0 == {j}" for t in (1, 2, 3, 4) for j in (0, 1, 2)],
+            what="same clock (jumps at the runner's reads, so the deadline can be OVERDUE at the moment the loop computes how long to wait next), a "
+                 "step that never finishes: the run is still timed out — WorkflowTimeoutError after exactly one WorkflowTimedOutEvent, not an "
+                 "unbounded wait",
+            bounds={"timeout T": "1..3 (thorough 4)", "jumps": "5 reads x 0..2 s"})
+def ob_overdue_deadline_still_times_out(T: int, j0: int, j1: int, j2: int, j3: int, j4: int) -> bool:
+    """
+    pre: 1 <= T <= TMAXR
+    pre: 0 <= j0 <= JMAX and 0 <= j1 <= JMAX and 0 <= j2 <= JMAX and 0 <= j3 <= JMAX and 0 <= j4 <= JMAX
+    post: _
+    """
+    return _jump_clock_run(T, 1000, j0, j1, j2, j3, j4)
+
+
+def _jump_clock_run(T: int, d: int, j0: int, j1: int, j2: int, j3: int, j4: int) -> bool:
     import asyncio
 
     import workflows.plugins.basic as basic_mod
     import workflows.runtime.types.step_function as sf_mod
     from vlib.miniloop import MiniLoop
 
-    T, d = conc(T, 1, 4), conc(d, 0, 1)
+    never = d >= 1000
+    T, d = conc(T, 1, 4), (1000 if never else conc(d, 0, 1))
     jumps = [conc(j, 0, JMAX) for j in (j0, j1, j2, j3, j4)]
     loop = MiniLoop()
     clock = _JumpClock(loop, jumps)
@@ -519,6 +539,8 @@ def ob_finished_first_is_not_timed_out(T: int, d: int, j0: int, j1: int, j2: int
         basic_mod.time, sf_mod.time = saved
     if clock.first is None or out.get("kind") not in ("result", "timeout"):
         return False
+    if never:
+        return out["kind"] == "timeout" and len(out.get("timed_out_events", [])) == 1
     deadline = clock.first + T
     fin = out.get("finished_at")
     if fin is not None and fin < deadline:
